@@ -80,19 +80,31 @@ Print Assumptions C03_code_do_exit_code.
    makes Python evaluate the non-existent `self._propagate_errors` (observation O1).  The
    routing around them (ResultHandler.on_ack / on_ready: `cache[job]`, the swallowed
    KeyError/AttributeError), ready(), safe_apply_callback, _cancel, worker_pids are
-   text-compared by the translator on every run. *)
-Theorem C03_code_parent_ack : forall pc s i t pid fd r job su va,
+   text-compared by the translator on every run.
+   [lc] (late cancellation): the generated hooks that run between _ack's decision and its
+   answer -- the timeout hook and the accept callback -- are a point at which a _cancel()
+   can land (the callback itself, or another thread: _cancel takes no lock); under the oracle
+   [lc] they set the generated handle's _cancelled flag, so every reading of the flag that
+   the code makes after a hook is part of this equation. *)
+Theorem C03_code_parent_ack : forall pc s i t pid fd r lc job su va,
     in_cache s = true ->
-    let o := K.ack (emb pc s r job su va) i (PInt t) (PInt pid) (optv fd) in
-    view o = p_ack pc s t pid fd r /\
+    let o := K.ack (emb pc s r lc job su va) i (PInt t) (PInt pid) (optv fd) in
+    view o = p_ack pc s t pid fd r lc /\
     raised o = negb (cancelled s && has_send_ack pc) && has_accept_cb pc && r /\
     (raised o = true -> K.g_attr_error (final o) = true).
 Proof. exact gen_p_ack. Qed.
 Print Assumptions C03_code_parent_ack.
 
+(* ... and _ack reads the cancellation flag exactly ONCE (readings of `self._cancelled`
+   counted in pool.py on this run; it never assigns it): decision and answer cannot be about
+   two different values of the flag (seeded change C03-4 re-read it before answering) *)
+Theorem C03_code_ack_reads_flag_once : K.ack_cancelled_reads = 1%nat.
+Proof. exact gen_ack_reads_flag_once. Qed.
+Print Assumptions C03_code_ack_reads_flag_once.
+
 Theorem C03_code_parent_set : forall pc s i ok v job su va,
     in_cache s = true ->
-    let o := K.set (emb pc s false job su va) i (PBool ok) (PInt v) in
+    let o := K.set (emb pc s false false job su va) i (PBool ok) (PInt v) in
     view o = p_set pc s ok v /\ raised o = false.
 Proof. exact gen_p_set. Qed.
 Print Assumptions C03_code_parent_set.
@@ -305,9 +317,9 @@ Print Assumptions C03_exit_status_sysexit.
 
 (* the ACK of a live job that is not refused: owner pid and acceptance time are those of the
    ACK, and the accept callback (given the same values) is the first callback *)
-Theorem C03_parent_owner_recorded : forall pc s t pid fd r,
+Theorem C03_parent_owner_recorded : forall pc s t pid fd r lc,
     in_cache s = true -> cancelled s && has_send_ack pc = false ->
-    let (s', o) := p_ack pc s t pid fd r in
+    let (s', o) := p_ack pc s t pid fd r lc in
     accepted s' = true /\ worker_pid s' = Some pid /\ time_accepted s' = Some t /\
     (has_accept_cb pc = true -> exists rest, o = OTimeoutSet :: OCbAccept pid t :: rest) /\
     (has_accept_cb pc = true -> r = false -> has_send_ack pc = true ->
@@ -353,9 +365,9 @@ Print Assumptions C03_parent_owner_is_ack_pid.
 
 (* cancelled before acceptance, handshake enabled: NACK to the ACK's pid/fd, no callback,
    no owner ... *)
-Theorem C03_parent_cancel_refuses : forall pc s t pid fd r f,
+Theorem C03_parent_cancel_refuses : forall pc s t pid fd r lc f,
     in_cache s = true -> cancelled s = true -> has_send_ack pc = true -> fd_truthy fd = Some f ->
-    p_ack pc s t pid fd r =
+    p_ack pc s t pid fd r lc =
     (mk_ar true true (worker_pid s) (time_accepted s) (is_ready s) true, [OSendAck NACK pid f]).
 Proof. exact parent_cancelled_refuses. Qed.
 Print Assumptions C03_parent_cancel_refuses.
@@ -370,7 +382,7 @@ Theorem C03_cancelled_job_not_run : forall pc s c n q rest k f,
     in_cache s = true -> cancelled s = true -> has_send_ack pc = true ->
     has_syn c = true -> fd_truthy (synfd c) = Some f ->
     guard (maxtasks c) n = true -> task_ok (q_ty q) = true ->
-    forall resp, snd (p_ack pc s (q_t q) (eff_pid c) (synfd c) false) = [OSendAck resp (eff_pid c) f] ->
+    forall resp, snd (p_ack pc s (q_t q) (eff_pid c) (synfd c) false false) = [OSendAck resp (eff_pid c) f] ->
     q_syn q = repeat RTimeout k ++ [RMsg resp] ->
     loop c n (RMsg q :: rest) = pre (accept_events c q) (loop c n rest)
     /\ runs (accept_events c q) = O /\ puts (accept_events c q) = [ack_msg c q].
@@ -416,9 +428,13 @@ Print Assumptions C03_syn_segment_closed.
    processed).  The code has TWO independent switches: the pool's `synack` flag
    (has_send_ack: handles are given Pool.send_ack) and whether the workers were given a SYN
    queue (has_syn: Pool.get_process_queues).  [linked pc c] = both on and the response is
-   delivered to a truthy descriptor.  Then the worker's decision is the parent's: *)
+   delivered to a truthy descriptor.  Then the worker's decision is the parent's -- the
+   parent's as taken on ENTRY of _ack ([hj_cancel]: cancelled before the ACK is processed);
+   [hj_late] (a cancellation landing while _ack's hooks run) is arbitrary.  [cb_returns]: the
+   job was refused on entry or its accept callback does not raise (a raising one leaves the
+   worker without any answer: C03_raising_accept_callback_starves). *)
 Theorem C03_handshake_decision : forall pc c h,
-    linked pc c -> delay_ok h = true ->
+    linked pc c -> delay_ok h = true -> cb_returns pc h = true ->
     confirmed c (hs_req pc true c h) = negb (hj_cancel h) /\
     fst (syn_result c (hs_req pc true c h)) = (if hj_cancel h then SynFalse else SynTrue) /\
     syn_closed (hs_req pc true c h) = true.
@@ -430,7 +446,7 @@ Print Assumptions C03_handshake_decision.
    executions = taken jobs not cancelled; cancelled jobs do not count toward the quota;
    and over one shared SYN stream the run is the same (no answer left for another job). *)
 Theorem C03_handshake_whole_run : forall pc c hins,
-    linked pc c -> (forall h, In (RMsg h) hins -> delay_ok h = true) ->
+    linked pc c -> (forall h, In (RMsg h) hins -> delay_ok h = true /\ cb_returns pc h = true) ->
     let ins := hs_ins pc true c hins in
     exists k,
       proto (w_events c ins) = flat_map (hblock pc c) (firstn k (htasks hins)) /\
@@ -475,16 +491,97 @@ Theorem C03_synack_without_syn_queue_witness :
 Proof. exact synack_without_syn_queue_witness. Qed.
 Print Assumptions C03_synack_without_syn_queue_witness.
 
+(* ------------------------------------------------ 5. the hook point inside _ack *)
+
+(* Between _ack's decision (its ONE reading of the cancellation flag, on entry) and its
+   answer the timeout hook and the accept callback run: user code, during which _cancel()
+   can be called on the same handle (by the callback, or by another thread -- _ack holds the
+   handle's mutex, _cancel takes no lock).  Such a cancellation sets the flag of the
+   accepted job and changes nothing else: same hooks, same order, same arguments, same
+   answer, same ownership record. *)
+Theorem C03_ack_late_cancel_changes_only_the_flag : forall pc s t pid fd r lc,
+    snd (p_ack pc s t pid fd r lc) = snd (p_ack pc s t pid fd r false) /\
+    fst (p_ack pc s t pid fd r lc) =
+    (if in_cache s && negb (cancelled s && has_send_ack pc)
+     then with_cancelled (fst (p_ack pc s t pid fd r false)) (cancelled s || lc)
+     else fst (p_ack pc s t pid fd r false)).
+Proof. exact p_ack_late_cancel. Qed.
+Print Assumptions C03_ack_late_cancel_changes_only_the_flag.
+
+(* The answer is determined by the FIRST reading: refused on entry -> NACK; accepted on
+   entry -> ACK whatever lands while the hooks run; no answer exactly when the accept
+   callback raises (observation O1). *)
+Theorem C03_ack_answer_first_read : forall pc s t pid fd r lc f,
+    in_cache s = true -> has_send_ack pc = true -> fd_truthy fd = Some f ->
+    responses (snd (p_ack pc s t pid fd r lc)) =
+    if cancelled s then [RMsg NACK]
+    else if has_accept_cb pc && r then [] else [RMsg ACK].
+Proof. exact p_ack_answer_first_read. Qed.
+Print Assumptions C03_ack_answer_first_read.
+
+(* trace form (the monitor the harness evaluates on the real code): in one run of _ack the
+   accept callback and a NACK never occur together *)
+Theorem C03_accepted_never_refused : forall pc s t pid fd r lc p t' resp p' f,
+    In (OCbAccept p t') (snd (p_ack pc s t pid fd r lc)) ->
+    In (OSendAck resp p' f) (snd (p_ack pc s t pid fd r lc)) ->
+    resp = ACK.
+Proof. exact p_ack_accepted_never_refused. Qed.
+Print Assumptions C03_accepted_never_refused.
+
+(* closed handshake: the accept callback of a job ran and returned => the worker's wait ends
+   with the confirmation and the job is run -- also when the callback cancelled the job *)
+Theorem C03_accept_callback_implies_run : forall pc c h p t,
+    linked pc c -> delay_ok h = true -> hj_raises h = false ->
+    In (OCbAccept p t) (snd (p_ack pc (ar_at_ack (hj_cancel h)) (q_t (hj_req h)) (eff_pid c)
+                                   (synfd c) (hj_raises h) (hj_late h))) ->
+    confirmed c (hs_req pc true c h) = true /\
+    fst (syn_result c (hs_req pc true c h)) = SynTrue.
+Proof. exact hs_accept_callback_implies_run. Qed.
+Print Assumptions C03_accept_callback_implies_run.
+
+(* nothing the worker ever reads depends on late cancellations: its inputs -- hence its
+   whole run, by the theorems of part 2 and 4 -- are those of the history without them *)
+Theorem C03_late_cancel_invisible_to_worker : forall pc dl c hins,
+    hs_ins pc dl c hins = hs_ins pc dl c (map no_late_in hins).
+Proof. exact hs_late_cancel_invisible. Qed.
+Print Assumptions C03_late_cancel_invisible_to_worker.
+
+(* observation O1 inside the handshake: the accept callback of an accepted job raises ->
+   `except self._propagate_errors` (no such attribute) -> AttributeError leaves _ack, on_ack
+   swallows it: owner and timeouts recorded, NO answer -- the worker waits for ever.
+   Reproduced on the real code by the handshake cases with a raising accept callback. *)
+Theorem C03_raising_accept_callback_starves : forall pc c h,
+    linked pc c -> delay_ok h = true -> hj_cancel h = false ->
+    has_accept_cb pc = true -> hj_raises h = true ->
+    fst (syn_result c (hs_req pc true c h)) = SynStarved.
+Proof. exact hs_raising_callback_starves. Qed.
+Print Assumptions C03_raising_accept_callback_starves.
+
+(* witness: linked handshake, the accept callback cancels its own job: ACK, RUN, READY *)
+Example C03_late_cancel_witness :
+  let pc := mk_pcfg true true true true true in
+  let c := mk_cfg None (Some 9) 7 None 4242 None None in
+  let h := mk_hjob (mk_req TASK 41 None 100 (Returns 5) [RTimeout] 0 false) false false true in
+  p_ack pc (ar_at_ack false) 100 4242 (Some 9) false true =
+  (mk_ar true true (Some 4242) (Some 100) false true,
+   [OTimeoutSet; OCbAccept 4242 100; OSendAck ACK 4242 9]) /\
+  proto (w_events c (hs_ins pc true c [RMsg h; RShutdown])) =
+  [EPut (mk_msg ACK 41 None (PAckP 100 4242 (Some 9))); ERun 41 None;
+   EPut (mk_msg READY 41 None (PReadyP (ROk 5) 7))].
+Proof. exact late_cancel_witness. Qed.
+
 (* ------------------------------------------------------------ non-vacuity *)
 (* linked handshake: job 1 cancelled before acceptance (3 empty polls), job 2 not; the late
-   answer case: 61 empty polls before the ACK answer of job 3 *)
+   answer case: 61 empty polls before the ACK answer of job 3; jobs 2 and 3 are cancelled
+   by their own accept callbacks (too late: they are run) *)
 Example C03_handshake_witness :
   let pc := mk_pcfg true true true true true in
   let c := mk_cfg None (Some 9) 7 None 4242 None None in
   let j (n : Z) (k : nat) (cancel : bool) :=
-      RMsg (mk_hjob (mk_req TASK n None (100 + n) (Returns n) (repeat RTimeout k) 0 false) cancel) in
+      RMsg (mk_hjob (mk_req TASK n None (100 + n) (Returns n) (repeat RTimeout k) 0 false) cancel false
+                    (negb cancel)) in
   let hins := [j 1 3%nat true; j 2 0%nat false; j 3 61%nat false; RShutdown] in
-  linked pc c /\ (forall h, In (RMsg h) hins -> delay_ok h = true) /\
+  linked pc c /\ (forall h, In (RMsg h) hins -> delay_ok h = true /\ cb_returns pc h = true) /\
   proto (w_events c (hs_ins pc true c hins)) =
   [EPut (mk_msg ACK 1 None (PAckP 101 4242 (Some 9)));
    EPut (mk_msg ACK 2 None (PAckP 102 4242 (Some 9))); ERun 2 None;
@@ -494,7 +591,7 @@ Example C03_handshake_witness :
 Proof.
   cbv zeta. split; [|split].
   - unfold linked. cbn. repeat split. exists 9. reflexivity.
-  - intros h [H|[H|[H|[H|[]]]]]; inversion H; reflexivity.
+  - intros h [H|[H|[H|[H|[]]]]]; inversion H; split; reflexivity.
   - vm_compute. reflexivity.
 Qed.
 
@@ -520,7 +617,7 @@ Proof. vm_compute. reflexivity. Qed.
 Example C03_cancel_witness :
   let pc := mk_pcfg true true true true true in
   let s := mk_ar false true None None false true in
-  snd (p_ack pc s 101 4242 (Some 9) false) = [OSendAck NACK 4242 9] /\
+  snd (p_ack pc s 101 4242 (Some 9) false false) = [OSendAck NACK 4242 9] /\
   loop ex_cfg 0 [ex_job 1 (Returns 5) NACK 0; RShutdown] =
   ([EInq; ENow; EPut (mk_msg ACK 1 None (PAckP 101 4242 (Some 9))); ESyn; ESyn; EInq],
    XSysExit EX_OK, 0).
@@ -530,7 +627,7 @@ Proof. vm_compute. split; reflexivity. Qed.
    its ACK was consumed *)
 Example C03_parent_witness :
   let pc := mk_pcfg true true true true true in
-  let l := [PAck None 102 4242 (Some 9) false; PCancel; PReady None false (-1)] in
+  let l := [PAck None 102 4242 (Some 9) false false; PCancel; PReady None false (-1)] in
   uncancel l = flat_map (pev_of 2)
                  (puts (evs (loop ex_cfg 0 [ex_job 2 ReturnsUnser ACK 50; RShutdown]))) /\
   ack_first false l = true /\
